@@ -60,7 +60,7 @@ theorem over_step {P : Prog} {v v' : SV} {evs : List Tr} (ho : overCode v.code =
       cases hb
       rfl
   | kill _ => rfl
-  | halt hc _ | raise hc _ | forceQuit hc | schedule hc | pushScr hc | replace hc _ | apprun hc | restore hc _
+  | halt hc _ | raise hc _ | forceQuit hc | enqAct hc | schedule hc | pushScr hc | replace hc _ | apprun hc | restore hc _
   | «open» hc _ | pop hc _ _ | popExit hc _ _ | pushModal hc | closeScreen hc _ | discard hc _ | identSkip hc _ _ =>
     rcases hcases with h | h <;> rw [h] at hc <;> cases hc <;> first | rfl | (rename_i hr; cases hr)
 
@@ -176,6 +176,7 @@ theorem sub_step {P : Prog} {v v' : SV} {evs : List Tr} (hb : Basic v) (hi : Sub
     right
     exact ⟨List.nil_sublist _, fun _ _ q _ => by simp⟩
   | schedule hc => exact .inr (sub_neutral (v := v) (by rw [hc]; rfl) rfl rfl (by rw [hc]; rfl) hi)
+  | enqAct hc => exact .inr (sub_neutral (v := v) (by rw [hc]; rfl) rfl rfl (by rw [hc]; rfl) hi)
   | pushScr hc => exact .inr (sub_neutral (v := v) (by rw [hc]; rfl) rfl rfl (by rw [hc]; rfl) hi)
   | replace hc _ => exact .inr (sub_neutral (v := v) (by rw [hc]; rfl) rfl rfl (by rw [hc]; rfl) hi)
   | apprun hc =>
